@@ -10,5 +10,8 @@ for d in seeded/*/; do
     fi
     patch="$d/patch.diff"; [ -f "$d/patch.rebased.diff" ] && patch="$d/patch.rebased.diff"
     echo "== $id"
-    tools/mutant.sh "$patch" "$prop" 2>&1 | sed 's/^/   /' | cut -c1-300
+    # seeded/<id>/check_props: the check(s) that decide this change when the property's own cannot (see meta.json); "-" = recorded as not flagged
+    props="$prop"; [ -f "$d/check_props" ] && props="$(cat "$d/check_props")"
+    if [ "$props" = "-" ]; then echo "   NOT-FLAGGED (see meta.json)"; continue; fi
+    tools/mutant.sh "$patch" $props 2>&1 | sed 's/^/   /' | cut -c1-300
 done
